@@ -2187,8 +2187,9 @@ pub enum PropertyStorage {
         len: u8,
         entries: [(PropertyKey, Property); INLINE_PROPERTY_CAPACITY],
     },
-    /// HashMap storage for larger objects.
-    Map(FxHashMap<PropertyKey, Property>),
+    /// Map storage for larger objects. Insertion-ordered: own property keys
+    /// are enumerated in the order the properties were created.
+    Map(IndexMap<PropertyKey, Property>),
 }
 
 impl Default for PropertyStorage {
@@ -2216,10 +2217,7 @@ impl PropertyStorage {
         if capacity <= INLINE_PROPERTY_CAPACITY {
             Self::new()
         } else {
-            PropertyStorage::Map(FxHashMap::with_capacity_and_hasher(
-                capacity,
-                Default::default(),
-            ))
+            PropertyStorage::Map(index_map_with_capacity(capacity))
         }
     }
 
@@ -2286,10 +2284,7 @@ impl PropertyStorage {
                 }
 
                 // Need to convert to Map (current_len == INLINE_PROPERTY_CAPACITY)
-                let mut map = FxHashMap::with_capacity_and_hasher(
-                    INLINE_PROPERTY_CAPACITY + 1,
-                    Default::default(),
-                );
+                let mut map = index_map_with_capacity(INLINE_PROPERTY_CAPACITY + 1);
                 for entry in entries.iter_mut() {
                     let (k, v) = mem::replace(
                         entry,
@@ -2357,7 +2352,7 @@ impl PropertyStorage {
                     None
                 }
             }
-            PropertyStorage::Map(map) => map.remove(key),
+            PropertyStorage::Map(map) => map.shift_remove(key),
         }
     }
 
@@ -2434,10 +2429,7 @@ pub enum PropertyStorageIter<'a> {
         index: usize,
         len: usize,
     },
-    #[cfg(feature = "std")]
-    Map(std::collections::hash_map::Iter<'a, PropertyKey, Property>),
-    #[cfg(not(feature = "std"))]
-    Map(hashbrown::hash_map::Iter<'a, PropertyKey, Property>),
+    Map(indexmap::map::Iter<'a, PropertyKey, Property>),
 }
 
 impl<'a> Iterator for PropertyStorageIter<'a> {
@@ -2468,10 +2460,7 @@ pub enum PropertyStorageIterMut<'a> {
     Inline {
         entries: &'a mut [(PropertyKey, Property)],
     },
-    #[cfg(feature = "std")]
-    Map(std::collections::hash_map::IterMut<'a, PropertyKey, Property>),
-    #[cfg(not(feature = "std"))]
-    Map(hashbrown::hash_map::IterMut<'a, PropertyKey, Property>),
+    Map(indexmap::map::IterMut<'a, PropertyKey, Property>),
 }
 
 impl<'a> Iterator for PropertyStorageIterMut<'a> {
